@@ -12,7 +12,9 @@ import hashlib
 
 from . import fixtures as F, refcodec as R, simnet
 
-SEGMENTS = {'quick': [9973, 65521, 1048583, 4099], 'thorough': [9973, 65521, 1048583, 4099, 250007, 16383, 16390, 997]}
+SEGMENTS = {'quick': [9973, 65521, 65536, 1048583, 4099, 'header+1', 'header+3', 'header+5', 'tail-65536'],
+            'thorough': [9973, 65521, 65536, 131072, 1048583, 4099, 250007, 16383, 16390, 997, 'header+1', 'header+2',
+                         'header+3', 'header+4', 'header+5', 'tail-65536', 'tail-131072', 'tail-65535']}
 SIZE = {'quick': 5 * 1024 * 1024 + 17, 'thorough': 24 * 1024 * 1024 + 5}
 
 
@@ -45,6 +47,24 @@ def run(res, tier, seed, replay_case=None):
         script = [('bytes', rq), ('user', F.user_primitive('uAC')[0])]
         if seg is None:
             script += [('bytes', p) for p in store + tail]
+        elif isinstance(seg, str) and seg.startswith('tail-'):
+            # the last segment before the peer falls silent (it waits for our reply) is exactly one
+            # read buffer long
+            n = int(seg.split('-')[1])
+            script += [('bytes', blob[:len(blob) - n]), ('bytes', blob[len(blob) - n:])]
+        elif isinstance(seg, str):
+            # every segment ends d bytes into the header of a PDU (groups of 1..40 PDUs per segment)
+            d = int(seg.split('+')[1])
+            bounds, pos = [], 0
+            for p in store + tail:
+                pos += len(p)
+                bounds.append(pos)
+            cuts, k = [], 0
+            while k < len(bounds) - 1:
+                k += 1 + (k * 7) % 40
+                if k < len(bounds) - 1:
+                    cuts.append(bounds[k] + d)
+            script += [('bytes', blob[a:b]) for a, b in zip([0] + cuts, cuts + [len(blob)])]
         else:
             script += [('bytes', blob[k:k + seg]) for k in range(0, len(blob), seg)]
         script += [('user', F.user_primitive('uRELRP')[0]), ('close',)]
@@ -68,7 +88,7 @@ def run(res, tier, seed, replay_case=None):
         case = {'long': True, 'segment': seg}
         obs = observe(seg)
         res.evaluations += 1
-        res.distinct.add('long|%d|%d' % (len(blob), seg))
+        res.distinct.add('long|%d|%s' % (len(blob), seg))
         res.count('oracle.long-stream')
         for channel in ('outcome', 'indications', 'wire', 'state', 'closed'):
             if obs[channel] != base[channel]:
@@ -76,7 +96,7 @@ def run(res, tier, seed, replay_case=None):
                 if channel == 'wire':
                     a, b = '%d bytes' % len(a), '%d bytes' % len(b)
                 res.violation('segmentation-changes-%s:long-stream' % channel, 'C03.differential',
-                              '%d bytes of PDUs in segments of %d: %s = %r, one PDU per segment gives %r%s' % (
+                              '%d bytes of PDUs in segments of %s: %s = %r, one PDU per segment gives %r%s' % (
                                   len(blob), seg, channel, a, b,
                                   (' error=%s' % obs['error']) if obs['error'] else ''), case)
                 break
